@@ -2,7 +2,8 @@
 //!
 //! One run = one (message, parser, chunking class) triple; inside the run the message is
 //! delivered through a `SimStream` with the cut (EOF, or connection reset for the last
-//! class) at EVERY offset 0..=len, and once more uncut. The parsers are the REAL
+//! class) at EVERY offset 0..=len (see `run` for the strided middle part of the synthetic
+//! messages larger than 2048 bytes), and once more uncut. The parsers are the REAL
 //! `NtsRecord::parse`, `Request::parse`, `KeyExchangeResponse::parse`, reached through
 //! the in-crate facade. Monitors, per delivery:
 //!   * the parse future completes: no panic, and never "pending with nothing left to read";
@@ -302,7 +303,7 @@ pub fn base_corpus() -> Vec<Msg> {
     }));
     out.push(m("oversize-req-many-denied-12k", {
         let mut r = vec![raw::rec_u16s(CRIT | 1, &[0x8001, 0]), raw::rec_u16s(CRIT | 4, &[17, 15])];
-        for i in 0..570 {
+        for i in 0..580 {
             r.push(RawRec::new(raw::T_DENY, format!("host-{i:04}.example").as_bytes()));
         }
         r.push(raw::eom());
@@ -734,20 +735,34 @@ pub fn run() {
         fault("mutated-message");
     }
 
-    // the cut offsets: every offset up to the end of the message; for oversize messages every
-    // offset up to just past the 4096-byte cap, then a sparse tail (a parser that respects the
-    // cap cannot observe anything beyond it)
-    let dense = len.min(MAX_MESSAGE + 8);
-    let mut offsets: Vec<usize> = (0..=dense).collect();
-    let mut k = dense + 1;
-    while k < len {
-        offsets.push(k);
-        k += 257;
-    }
-    if len > dense {
-        offsets.extend([len - 1, len]);
-    }
-    offsets.dedup();
+    // the cut offsets: EVERY offset for messages up to 2048 bytes (this covers every message that
+    // really flows in a key exchange: the largest is a 1.5 KB response). Larger (synthetic
+    // boundary-size / oversize / endless) messages consist of long runs of equivalent positions
+    // inside padding or repeated records: every offset in 0..=128 and around the 4096-byte cap
+    // (3968..=4104), a stride in between (13, or 53 for the seeded chunking classes whose every
+    // read draws from the choice stream), and a sparse tail beyond the cap (a parser that
+    // respects the cap cannot observe anything there).
+    let offsets: Vec<usize> = if len <= 2048 {
+        (0..=len).collect()
+    } else {
+        let stride = if class == 7 || class == 8 { 53 } else { 13 };
+        let mut v: Vec<usize> = (0..=128).collect();
+        let mut k = 128 + stride;
+        while k < 3968 {
+            v.push(k);
+            k += stride;
+        }
+        v.extend(3968..=(MAX_MESSAGE + 8).min(len));
+        let mut k = MAX_MESSAGE + 8 + 257;
+        while k < len {
+            v.push(k);
+            k += 257;
+        }
+        v.extend([len - 1, len]);
+        v.sort();
+        v.dedup();
+        v
+    };
 
     let mut hist: std::collections::BTreeMap<String, u64> = std::collections::BTreeMap::new();
     let mut last_checked: Option<Value> = None;
